@@ -7,8 +7,8 @@
    The error of a refused load is EMem or EPerm, never the "top-level return" signal EFinish that
    the step would turn into success. *)
 From Coq Require Import ZArith Bool List Lia.
-From AxV Require Import Bits Outcome Codes Iced State Rt Mem Exec ByteStore ListP MemP ExecP RegFile RegsP ISA CodeSem OperandP FlagsP MovP StepIsaP FrameTac FrameP.
-From AxG Require Import Dispatch DispatchEq I_mov Readonly.
+From AxV Require Import Bits Outcome Codes Iced State Rt Mem Exec ByteStore ListP MemP ExecP RegFile RegsP ISA CodeSem OperandP FlagsP MovP RmP DivP StepIsaP FrameTac FrameP.
+From AxG Require Import Dispatch DispatchEq I_mov I_div Readonly.
 Local Open Scope Z_scope.
 
 Lemma mem_read_bytes_err_class a n s e s' :
@@ -86,3 +86,55 @@ Section StepLoad.
         * destruct (mem_read_n_err_class _ _ _ _ _ RD) as [->| ->]; discriminate.
   Qed.
 End StepLoad.
+
+(* DIV r64 (register divisor): the step fails with the divide error exactly when the CPU raises #DE
+   (zero divisor, or a quotient that does not fit in 64 bits) and changes nothing but the already
+   advanced RIP; otherwise it succeeds with the architectural quotient and remainder.  A register
+   operand cannot fault on memory, so there is no other outcome. *)
+Section StepDiv.
+  Variable decode : Z -> list Z -> option instr.
+  Variables (c : cfg) (env : hookenv) (s : mstate) (bytes : list Z) (i : instr).
+  Hypothesis Hf : finished s = false.
+  Hypothesis Hl : (match max_instr s with Some limit => limit <=? icount s | None => false end) = false.
+  Hypothesis Hb : mem_read_executable_bytes (regs s RIP) s = (Ok bytes, s).
+  Hypothesis Hd : decode (regs s RIP) bytes = Some i.
+  Hypothesis Hsup : supported_mnemonic_try_from c (i_mnemonic i) (entered s i) = (Ok (i_mnemonic i), entered s i).
+  Hypothesis Hnone : env (i_mnemonic i) = None.
+  Hypothesis Hmn : i_mnemonic i = M_Div.
+  Hypothesis Hc : i_code i = C_Div_rm64.
+  Hypothesis Hwf : wf_regs s.
+  Hypothesis Hinv : Inv (mem s).
+  Hypothesis Hnip : 0 <= i_next_ip i < 2 ^ 64.
+  Hypothesis Hic : 0 <= icount s < 2 ^ 64 - 1.
+  Hypothesis Hn : i_op_count i = 1.
+  Hypothesis K0 : i_op_kind i 0 = OK_Register.
+  Hypothesis H0 : is_gpr64 (i_op_register i 0) = true.
+
+  Notation step := (Exec.step decode switch_instruction_mnemonic supported_mnemonic_try_from).
+
+  Theorem step_div_r64 :
+    match isa_exec (SDiv 64) i (entered s i) with
+    | IDone s1 _ => step c env s = (Ok (negb (finished (after_step s1))), after_step s1)
+    | IFault FDivide => step c env s = (Err EDivZero, entered s i)
+    | IFault _ => False
+    end.
+  Proof.
+    assert (Hwf' : wf_regs (entered s i)).
+    { intros r. unfold entered. cbn [regs set_regs]. unfold upd. destruct (reg_eqb RIP r); [exact Hnip|apply Hwf]. }
+    assert (Hinv' : Inv (mem (entered s i))) by exact Hinv.
+    pose proof (div_rm64_refines c i (entered s i) Hwf' Hinv' Hn (or_introl (conj K0 H0)) Hc) as R.
+    destruct (isa_exec (SDiv 64) i (entered s i)) as [s1 u|f] eqn:I.
+    - apply (step_of_ok decode c env s bytes i Hf Hl Hb Hd Hsup Hnone).
+      + rewrite (dispatch_instr_div_rm64 c i _ Hmn Hc). exact R.
+      + pose proof (FrameP.dispatch_keeps_counters c i (entered s i)) as K.
+        rewrite (dispatch_instr_div_rm64 c i _ Hmn Hc) in K. rewrite R in K. cbn [snd] in K.
+        destruct K as (K & _). change (icount (entered s i)) with (icount s) in K. rewrite K. exact Hic.
+    - destruct f; try contradiction.
+      + (* FMem: impossible with a register operand *)
+        exfalso. cbv beta iota zeta delta [isa_exec exec_div read_op] in I. rewrite K0 in I.
+        repeat match type of I with context [if ?b then _ else _] => destruct b end; discriminate I.
+      + apply (step_of_err decode c env s bytes i Hf Hl Hb Hd Hsup Hnone).
+        * rewrite (dispatch_instr_div_rm64 c i _ Hmn Hc). exact R.
+        * discriminate.
+  Qed.
+End StepDiv.
